@@ -49,7 +49,8 @@ def norm_sc(sc):
                        for st in f] for f in sc["files"]],
             "sched": list(sc["sched"]), "deps": [sorted(d) for d in sc["deps"]],
             "never": sorted(sc["never"]), "unknown": sorted(sc["unknown"]),
-            "tgt": list(sc.get("tgt") or range(1, n + 1))}
+            "tgt": list(sc.get("tgt") or range(1, n + 1)),
+            "builtin": sorted(sc.get("builtin") or []), "mode": sc.get("mode", "book")}
 
 
 def ref_count(sc):
@@ -101,7 +102,9 @@ def render(sc, names, imports="star"):
         # a file without any element would make textX return a bare string instead of a model object
         parts.append(f"# targets\ndefb zz{m + 1}\n")
         for r in file_refs(sc, m):
-            if tgt[r - 1] == r:           # a target is defined in the file of the first reference to it
+            # a target is defined in the file of the first reference to it -- unless its name is unknown to
+            # the provider (then it is nowhere in the files; it may be a builtin of the metamodel)
+            if tgt[r - 1] == r and not any(tgt[u - 1] == r for u in sc["unknown"]):
                 parts.append(f"defb {names[r]}\n")
         text = "".join(parts)
 
@@ -151,6 +154,7 @@ class Scheduled:
         self.calls = []
         self.anomalies = []
         self.targets = None
+        self.owners = None
 
     def _targets(self, obj):
         from textx import get_children_of_type, get_model
@@ -161,6 +165,53 @@ class Scheduled:
                 for d in get_children_of_type("DefB", mdl):
                     self.targets.setdefault(d.name, d)
         return self.targets
+
+    def _owner(self, obj, d):
+        """(object, attribute name) holding reference d, found by walking the loaded models like a user would."""
+        from textx import get_model
+        from textx.scoping import get_included_models
+        if self.owners is None:
+            self.owners = {}
+            for mdl in get_included_models(get_model(obj)):
+                fn = os.path.basename(getattr(mdl, "_tx_filename", None) or "")
+                if not re.fullmatch(r"f\d+\.m", fn):
+                    continue
+                m = int(fn[1:-2]) - 1
+                slots = []
+                for el in mdl.elems:
+                    cn = type(el).__name__
+                    if cn == "UseList":
+                        slots.append((el, "refs"))
+                    elif cn == "Use":
+                        slots.append((el, "ref"))
+                    elif cn == "Node":
+                        slots.append((el, "ins"))
+                        stmts = self.sc["files"][m]
+                        k = len(slots)
+                        while k < len(stmts) and stmts[k]["join"] == "attr":
+                            slots.append((el, "outs" if stmts[k]["list"] else "ref"))
+                            k += 1
+                    elif cn == "Target":
+                        slots.append((el.main, "refs"))
+                        slots.append((el, "refs"))
+                for k, st in enumerate(self.sc["files"][m]):
+                    for r in st["refs"]:
+                        if k < len(slots):
+                            self.owners[r] = slots[k]
+        return self.owners[d]
+
+    def _deps_open(self, obj, r):
+        sc = self.sc
+        if sc["mode"] == "api":
+            # ask textX: the documented path walker answers Postponed while the attribute waits for references
+            from textx.scoping import Postponed
+            from textx.scoping.tools import resolve_model_path
+            for d in sc["deps"][r - 1]:
+                o, an = self._owner(obj, d)
+                if type(resolve_model_path(o, an)) is Postponed:
+                    return True
+            return False
+        return not set(sc["deps"][r - 1]) <= self.resolved
 
     def __call__(self, obj, attr, obj_ref):
         from textx import get_model
@@ -189,7 +240,7 @@ class Scheduled:
             ans = "postponed"
         elif r in sc["unknown"]:
             ans = "none"
-        elif r in sc["never"] or not set(sc["deps"][r - 1]) <= self.resolved:
+        elif r in sc["never"] or self._deps_open(obj, r):
             ans = "postponed"
         else:
             ans = "resolved"
@@ -205,28 +256,57 @@ class Scheduled:
 _STATE = {}
 
 
-def _mm():
-    """One metamodel and provider per process (scope providers are registered once, as users do)."""
-    if "mm" not in _STATE:
+REF_ATTRS = [("Use", "ref"), ("UseList", "refs"), ("Node", "ins"), ("Node", "outs"), ("Node", "ref"),
+             ("Target", "refs"), ("Part", "refs")]
+
+
+def _mm(src="registered"):
+    """One metamodel and provider per process and provider source (providers are set up once, as users do).
+    src = "registered": register_scope_providers({"*.*": ImportURI(provider)});
+    src = "grammar":    nothing registered; the provider sits on the reference attributes themselves, where
+                        lang.py puts the provider of an RREL expression written in the grammar."""
+    if src not in _STATE:
         from textx import metamodel_from_str
         from textx.scoping.providers import ImportURI
         sched = Scheduled()
-        mm = metamodel_from_str(GRAMMAR)
-        mm.register_scope_providers({"*.*": ImportURI(sched)})
-        _STATE["mm"], _STATE["sched"] = mm, sched
-    return _STATE["mm"], _STATE["sched"]
+        mm = metamodel_from_str(GRAMMAR, builtins={})
+        if src == "registered":
+            mm.register_scope_providers({"*.*": ImportURI(sched)})
+        else:
+            prov = ImportURI(sched)
+            for cls, attr in REF_ATTRS:
+                mm[cls]._tx_attrs[attr].scope_provider = prov
+        _STATE[src] = (mm, sched)
+    return _STATE[src]
+
+
+def grammar_source_ok(sc, imports):
+    """With the provider on the attributes, imported files are only loaded by a model that has a reference."""
+    nf = len(sc["files"])
+    if nf == 1:
+        return True
+    if imports == "star":
+        return bool(sc["files"][0])
+    return all(sc["files"][m] for m in range(nf - 1))
 
 
 _NAME_RE = re.compile(r'"([^"]*)" of class "')
 
 
-def run_scenario(sc, seed, workdir, imports="star"):
+def run_scenario(sc, seed, workdir, imports="star", src="registered"):
     """Load the rendered scenario with real textX. -> observation dict (JSON-able)."""
     from textx.exceptions import TextXSemanticError
     from textx.scoping import get_included_models
-    mm, sched = _mm()
+    mm, sched = _mm(src)
     sc = norm_sc(sc)
     names = names_for(sc, seed)
+    # the builtins of the metamodel: objects of an earlier model loaded with the same metamodel
+    mm.builtins.clear()
+    bi = sorted({sc["tgt"][r - 1] for r in sc["builtin"]})
+    if bi:
+        sched.begin(sc, names, {}, {})
+        bm = mm.model_from_str("".join(f"defb {names[t]}\n" for t in bi))
+        mm.builtins.update({d.name: d for d in bm.elems})
     files, pos, attr = render(sc, names, imports)
     for fn, text in files:
         with open(os.path.join(workdir, fn), "w") as f:
@@ -286,23 +366,25 @@ def run_scenario(sc, seed, workdir, imports="star"):
 
 
 def _work(args):
-    chunk, seed, imports = args
+    chunk, seed, imports, srcs = args
     work = tlc.scratch("vt-res-")
     try:
-        return [run_scenario(sc, seed, work, imp) for sc, imp in zip(chunk, imports)]
+        return [run_scenario(sc, seed, work, imp, src) for sc, imp, src in zip(chunk, imports, srcs)]
     finally:
         shutil.rmtree(work, ignore_errors=True)
 
 
-def run_many(scs, seed, imports=None):
-    """Run many scenarios against the real code (process pool of tlc.NCPU workers, order preserved)."""
+def run_many(scs, seed, imports=None, srcs=None):
+    """Run many scenarios against the real code (process pool of tlc.NCPU workers, order preserved).
+    Each worker loads its whole share on one metamodel per provider source (earlier models are dropped)."""
     import multiprocessing as mp
     imports = imports or ["star"] * len(scs)
+    srcs = srcs or ["registered"] * len(scs)
     n = max(1, min(tlc.NCPU, len(scs) // 200 + 1))
     if n == 1:
-        return _work((scs, seed, imports))
+        return _work((scs, seed, imports, srcs))
     size = (len(scs) + n - 1) // n
-    jobs = [(scs[i:i + size], seed, imports[i:i + size]) for i in range(0, len(scs), size)]
+    jobs = [(scs[i:i + size], seed, imports[i:i + size], srcs[i:i + size]) for i in range(0, len(scs), size)]
     with mp.get_context("fork").Pool(n) as pool:
         parts = pool.map(_work, jobs)
     return [o for p in parts for o in p]
@@ -456,8 +538,15 @@ def random_scenario(rng, max_files=3, max_refs=8, max_sched=3, p_dep=0.25, p_nev
     unknown = sorted(i for i in range(1, n + 1) if rng.random() < p_unknown)
     tgt = []
     for i in range(1, n + 1):              # some references name a target that was referenced before
-        tgt.append(rng.choice(tgt) if tgt and rng.random() < 0.25 else i)
-    return {"files": files, "sched": sched, "deps": deps, "never": never, "unknown": unknown, "tgt": tgt}
+        known = [t for t in tgt if t not in unknown]
+        tgt.append(rng.choice(known) if known and i not in unknown and rng.random() < 0.25 else i)
+    builtin = [u for u in unknown if rng.random() < 0.6]      # unknown to the provider, but a builtin
+    mode = rng.choice(["book", "api"])
+    if mode == "api":
+        # an attribute that waits for itself never resolves; keep that rare
+        deps = [[d for d in ds if rng.random() < 0.9] for ds in deps]
+    return {"files": files, "sched": sched, "deps": deps, "never": never, "unknown": unknown, "tgt": tgt,
+            "builtin": builtin, "mode": mode}
 
 
 # ------------------------------------------------------------------ the conformance pass shared by C08 and C09
@@ -468,7 +557,7 @@ def conformance(rep, families, attr_mode, devs, nontrivial, n_random, rng, rando
     scenarios, are validated by TLC as behaviours of LoaderResolve (same three-way verdict)."""
     shards = shards or tlc.NCPU
     stats = {}
-    all_sc, all_obs, all_imp = [], [], []
+    all_sc, all_obs, all_imp, all_src = [], [], [], []
     for fam in families:
         exp, rs = emit(fam, "", shards)
         for i, r in enumerate(rs):
@@ -476,32 +565,48 @@ def conformance(rep, families, attr_mode, devs, nontrivial, n_random, rng, rando
         dexp = {fid: emit(fam, d, shards)[0] for fid, d in devs.items()}
         keys = sorted(exp)
         scs = [exp[k]["sc"] for k in keys]
-        obs = run_many(scs, rep.seed)
-        cnt = dict(scenarios=len(scs), passed=0, known=0, violations=0)
-        for k, sc, o in zip(keys, scs, obs):
-            case = {"kind": "scenario", "sc": sc, "imports": "star", "attr_mode": attr_mode}
-            if o["anomalies"]:
-                rep.violation(dict(case=case, observed=o), "the loader offered a reference the rendering does not "
-                              "explain: " + "; ".join(o["anomalies"][:3]))
-                cnt["violations"] += 1
-                continue
-            v = common.judge(rep, case, observed_outcome(o, attr_mode), expected_outcome(exp[k], attr_mode),
-                             {fid: expected_outcome(t[k], attr_mode) for fid, t in dexp.items()},
-                             nontrivial=nontrivial(sc),
-                             why=f"scenario {common.canon(sc)}: textX gave {common.canon(observed_outcome(o, attr_mode))} "
-                                 f"but LoaderResolve prescribes {common.canon(expected_outcome(exp[k], attr_mode))}")
-            cnt["passed" if v == "pass" else "known" if v == "known" else "violations"] += 1
+        # provider source: alternately registered under '*.*' / attached to the attributes like a grammar RREL
+        # (nothing registered); the loads with the other source are compared with the module as well
+        src1 = ["grammar" if i % 2 and grammar_source_ok(sc, "star") else "registered" for i, sc in enumerate(scs)]
+        src2 = ["registered" if a == "grammar" else ("grammar" if grammar_source_ok(sc, "star") else None)
+                for a, sc in zip(src1, scs)]
+        obs = run_many(scs, rep.seed, None, src1)
+        idx2 = [i for i, b in enumerate(src2) if b]
+        obs2 = dict(zip(idx2, run_many([scs[i] for i in idx2], rep.seed, None, [src2[i] for i in idx2])))
+        cnt = dict(scenarios=len(scs), loads=len(scs) + len(idx2), passed=0, known=0, violations=0)
+        for i, (k, sc) in enumerate(zip(keys, scs)):
+            for o, src in ((obs[i], src1[i]), (obs2.get(i), src2[i])):
+                if o is None:
+                    continue
+                case = {"kind": "scenario", "sc": sc, "imports": "star", "attr_mode": attr_mode, "src": src}
+                if o["anomalies"]:
+                    rep.violation(dict(case=case, observed=o), "the loader offered a reference the rendering does "
+                                  "not explain: " + "; ".join(o["anomalies"][:3]))
+                    cnt["violations"] += 1
+                    continue
+                v = common.judge(rep, case, observed_outcome(o, attr_mode), expected_outcome(exp[k], attr_mode),
+                                 {fid: expected_outcome(t[k], attr_mode) for fid, t in dexp.items()},
+                                 nontrivial=nontrivial(sc),
+                                 why=f"scenario {common.canon(sc)} (provider {src}): textX gave "
+                                     f"{common.canon(observed_outcome(o, attr_mode))} but LoaderResolve prescribes "
+                                     f"{common.canon(expected_outcome(exp[k], attr_mode))}")
+                cnt["passed" if v == "pass" else "known" if v == "known" else "violations"] += 1
         stats[fam] = cnt
         all_sc += scs
         all_obs += obs
         all_imp += ["star"] * len(scs)
+        all_src += src1
     n_enum = len(all_sc)
     kw = random_kw or {}
     rs_sc = [random_scenario(rng, **kw) for _ in range(n_random)]
     rs_imp = [rng.choice(["star", "chain"]) for _ in range(n_random)]
+    rs_sc = [norm_sc(x) for x in rs_sc]
+    rs_src = ["grammar" if i % 2 and grammar_source_ok(sc, imp) else "registered"
+              for i, (sc, imp) in enumerate(zip(rs_sc, rs_imp))]
     all_sc += rs_sc
     all_imp += rs_imp
-    all_obs += run_many(rs_sc, rep.seed, rs_imp)
+    all_src += rs_src
+    all_obs += run_many(rs_sc, rep.seed, rs_imp, rs_src)
     traces = [trace_of(sc, o) for sc, o in zip(all_sc, all_obs)]
     verdicts, rr = validate(traces, "", attr_mode)
     for i, r in enumerate(rr):
@@ -515,7 +620,7 @@ def conformance(rep, families, attr_mode, devs, nontrivial, n_random, rng, rando
     tcnt = dict(traces=len(traces), enumerated=n_enum, random=n_random, accepted=0, known=0, violations=0)
     for i, (tr, v) in enumerate(zip(traces, verdicts)):
         sc = all_sc[i]
-        case = {"kind": "trace", "sc": sc, "imports": all_imp[i], "attr_mode": attr_mode}
+        case = {"kind": "trace", "sc": sc, "imports": all_imp[i], "attr_mode": attr_mode, "src": all_src[i]}
         if all_obs[i]["anomalies"] and i >= n_enum:
             rep.violation(dict(case=case, observed=all_obs[i]), "; ".join(all_obs[i]["anomalies"][:3]))
             tcnt["violations"] += 1
@@ -542,9 +647,11 @@ def replay_case(path):
     c = rec["case"]
     case = c.get("case", c)
     sc, imports, mode = norm_sc(case["sc"]), case.get("imports", "star"), case.get("attr_mode", "seq")
+    src = case.get("src", "registered")
     work = tlc.scratch("vt-res-")
     try:
-        obs = run_scenario(sc, int(os.environ.get("VERIF_SEED", "0") or 0), work, imports)
+        obs = run_scenario(sc, int(os.environ.get("VERIF_SEED", "0") or 0), work, imports, src)
+        print("provider source:", src)
         names = names_for(sc, int(os.environ.get("VERIF_SEED", "0") or 0))
         for fn, text in render(sc, names, imports)[0]:
             print(f"--- {fn}\n{text}", end="")
